@@ -213,6 +213,7 @@ type tr struct {
 	captured []capturedVar
 	rangeColl map[int]Term
 	loopEntry map[int]Env // state on entry to each loop (for at_loop)
+	loopHeadEnv map[int]Env // state at the head of the current iteration of each loop (for at_head)
 	calledResults []Term
 	hasRecover bool
 }
